@@ -24,6 +24,21 @@ theorem C13_fields_no_fourth_delim (e0 : Bytes)
     (entryFields e0).trackOff = ((stripDelims e0.length e0).length : Int) :=
   entryFields_trackOff_of_neg e0 h
 
+/-- more generally (second repair): if ANY of the four delimiter searches fails — after a failed
+search the next one starts over from index 4 of the entry and may find an earlier delimiter again,
+so the last result alone says nothing — the track offset is the end of the entry -/
+theorem C13_fields_missing_delim (e0 : Bytes)
+    (h : let e := stripDelims e0.length e0
+         let d : Int := delim.length
+         let first := pyFind delim e 0
+         let second := pyFind delim e (first + d)
+         let third := pyFind delim e (second + d)
+         let fourth := pyFind delim e (third + d)
+         first < 0 ∨ second < 0 ∨ third < 0 ∨ fourth < 0) :
+    (entryFields e0).trackOff = ((stripDelims e0.length e0).length : Int) := by
+  simp only [entryFields]
+  rw [if_pos h]
+
 /-- an entry whose ecc track is empty (whole-file tool: the track starts at the end of the entry;
 header tool: the track offset is not inside the entry) never writes anything and never reports a
 corruption -/
